@@ -45,13 +45,13 @@ def check(pid, engine, design, text, note, technique):
 import os
 checks = [
  check("C19", "jiffsim", "DESIGN.md section 3",
-  "Seeded search over schedules and fault sequences: each run executes the real TimeZoneDatabase code (zoneinfo, concatenated, bundled) on a real tmpfs directory with 1-4 caller threads and 0-2 disk-mutator threads under a harness-owned scheduler (simulated threads are real OS threads, one running at a time), a simulated monotonic clock that crosses the 300 s TTL exactly, and 16 fault kinds (disk mutations incl. torn in-place rewrites and writer crashes, injected I/O errors, clock jumps, missing clock, restarts, resets); the recorded history is checked against the recorded disk states (freshness within one TTL / after reset, canonical identity, completeness of available(), reuse of unchanged files, hostile names, no panic / deadlock / unbounded steps). Sampling, not proof: a clean batch is evidence that the property holds on the explored interleavings.",
+  "Seeded search over schedules and fault sequences: each run executes the real TimeZoneDatabase code (zoneinfo, concatenated, bundled) on a real tmpfs directory with 1-4 caller threads and 0-2 disk-mutator threads under a harness-owned scheduler (simulated threads are real OS threads, one running at a time), a simulated monotonic clock that crosses the (measured, see sim/src/c19/calib.rs) time-to-live exactly, a lock shim that makes every RwLock acquisition a scheduling point and models writer preference as a per-run knob, and 16 fault kinds (disk mutations incl. torn in-place rewrites and writer crashes, injected I/O errors, clock jumps, missing clock, restarts, resets); the recorded history is checked against the recorded disk states (freshness within one TTL / after reset, canonical identity, completeness of available(), reuse of unchanged files, hostile names, no panic / deadlock / unbounded steps). Sampling, not proof: a clean batch is evidence that the property holds on the explored interleavings.",
   "Trusted: std::fs + kernel tmpfs, std RwLock, Arc, jiff's in-memory TZif parser as the reference for 'which zone do these bytes denote'. Assumes A1-A8 of DESIGN.md section 7 (notably: every content change changes the mtime). Code between two cfg(jiff_verif) sites is atomic in the simulation. EIO/EINTR/short reads and allocation failure are not injected.",
   "deterministic simulation with fault injection (seeded scheduler + simulated clock + faulted tmpfs, history oracle)"),
 ]
 if os.path.exists("/verif/sim/src/c20/mod.rs"):
     checks.append(check("C20", "jiffsim", "DESIGN.md section 4",
-  "Seeded search over programs x schedules: bounded programs (new/clone/drop/move/eq/query, 24 Zoned-producing and 9 in-place Zoned APIs, 16 two-value Zoned APIs, TimeZone->Zoned/AmbiguousZoned constructors, consuming AmbiguousZoned APIs, send/recv/swap between threads, thread crash) over TimeZone, Zoned and AmbiguousZoned values of every kind (UTC, unknown, fixed, POSIX incl. near-duplicate strings, TZif from bytes incl. same-name/different-data and static-twin zones, static) run on 1-4 simulated threads, each a real OS thread (own thread-locals) of which exactly one runs at a time; the hand-over at every operation boundary is decided by the run's PRNG and recorded. After every operation a counting global allocator is compared with a handle-count model (every allocation of a heap zone live while a handle exists, all freed exactly when the last handle goes, never twice, nothing leaked, constructors returning memory of a freed zone reported), every query is compared with a reference handle, with documented constants and with the recorded answers of the pinned tree, and equality laws (reflexive, symmetric, stable, expected value within a kind) are checked; every batch also sweeps all 187,199 fixed offsets and compares each static zone with the heap zone built from the same bytes. The thorough tier re-runs generated programs on free-running threads under Miri's seeded scheduler (use-after-free, double free, leaks, data races, invalid tagged pointers). Sampling, not proof.",
+  "Seeded search over programs x schedules: bounded programs (new/clone/clone_from/drop/move/eq/query incl. transition iterators whose items outlive them, 34 Zoned-producing and 9 in-place Zoned APIs, 16 two-value Zoned APIs, TimeZone->Zoned/AmbiguousZoned constructors, consuming AmbiguousZoned APIs, send/recv/swap between threads, thread crash) over TimeZone, Zoned and AmbiguousZoned values of every kind (UTC, unknown, fixed, POSIX incl. near-duplicate strings, TZif from bytes incl. same-name/different-data, footer-rule and static-twin zones, static zones as two get! expansions in two spellings, zones from a per-run TimeZoneDatabase through get and four parsing APIs, zones from the process-global database through TimeZone::get / in_tz / FromStr / strptime, the unnamed system zone) run on 1-4 simulated threads, each a real OS thread (own thread-locals) of which exactly one runs at a time; the hand-over at every operation boundary is decided by the run's PRNG and recorded. After every operation a counting global allocator is compared with a handle-count model (every allocation of a heap zone live while a handle exists, all freed exactly when the last handle goes, never twice, nothing leaked, constructors returning memory of a freed zone reported), every query is compared with a reference handle, with documented constants and with the recorded answers of the pinned tree, and equality laws (reflexive, symmetric, stable, expected value within a kind) are checked; every batch also sweeps all 187,199 fixed offsets (incl. abbreviations against an independent formatter), runs three recording-free self-consistency checks and the recorded behaviour digest for each of 175 pooled zones, and compares each static zone with its twin and with the heap zone built from the same bytes. Both tiers (the thorough one at greater depth) re-run generated programs and directed clone/drop/query race rounds on free-running threads under Miri's seeded scheduler (use-after-free, double free, leaks, data races, invalid tagged pointers). Sampling, not proof.",
   "Trusted: Arc's atomics and the system allocator (native tier; Miri goes inside them), the counting allocator's bookkeeping, x86_64 only (A6). The native tier has scheduling points between operations only; which thread performs which clone/drop and the last drop is what schedules vary. Panics of Zoned arithmetic APIs are not C20 violations (counted in the evidence); the recorded answer table cannot flag the tree it was recorded from.",
   "deterministic simulation (seeded scheduler over handle programs, crash faults, allocator-level memory oracle; Miri tier)"))
 else:
